@@ -17,14 +17,16 @@ from harness.props import c17_facts
 from harness.props import c17_facts_ext
 from harness.props import c17_facts_py
 from harness.props import c17_facts_r3
+from harness.props import c17_facts_thr
 from harness.props import c17_ext as X
 from harness.props import c17_py as Y
 from harness.props import c17_r3 as Z
+from harness.props import c17_thr as T
 from harness.props import c17_util as U
 
 PROP = "C17"
 DRIVER_MODULES = ["PsutilModel.Model.C17Gen", "PsutilModel.Spec.C17", "PsutilModel.Spec.C17Ext", "PsutilModel.Spec.C17Py",
-                  "PsutilModel.Spec.C17R3"]
+                  "PsutilModel.Spec.C17R3", "PsutilModel.Spec.C17Thr"]
 NEEDS_EXT = True
 TRUSTED = [
     "C17 is PARTIAL: the theorems are about a Lean model of the decoders (struct utmp layout, C-string reads, the Python filters) and of the bounds arithmetic (PSUTIL_STRNCPY, MAC formatting, affinity loop, CPU_SET, pid range, ioprio packing); memory safety of the COMPILED code is supported by differential testing of the real extension in sub-processes, in the thorough tier under clang AddressSanitizer + UBSan — testing, not proof",
@@ -32,6 +34,7 @@ TRUSTED = [
     "round 2: RootFsDeviceFinder, net_if_stats() and net_if_addrs() are modelled on ASCII text ('\\r'-free files, str.isdigit()+int() on ASCII digits); the kernel-consistent tree of C17_rootfs_* is a definition (Spec.Consistent: one device list rendered through the kernel's three printf formats, unique device numbers); os.stat('/'), glob order and os.path.exists are inputs of the model",
     "glibc (getutent record chunking, getmntent escape decoding and 4095-byte line cut, CPU_SET bounds check, strncpy, sprintf) and CPython's PyArg_ParseTuple format units are modelled/independently re-implemented in the harness and validated by the correspondence, not verified",
     "extension round: libc's getnameinfo(NI_NUMERICHOST) text, fgets/getmntent line handling and va_arg widths behind Py_BuildValue are modelled explicitly (oracle / named definitions) and validated by the shim-driven correspondence; the shim (harness/props/c17_util.py SHIM2_C) stands in for the kernel's getifaddrs/ioctl/sysinfo answers",
+    "threads (seeded round 5): the static object is modelled as ONE whole record (a torn read of a half-parsed buffer is not modelled: the model is kinder to the code than the machine); the GIL is the only lock and a thread owns it from entry to return except inside the windows the translator finds (CPython 3.12: allocations do not run the garbage collector, so no Python code runs inside the decoders); the list of libc functions that answer through a static object (Thr.nonReentrant, attributes(7)) is a definition; the scripted schedules rely on /proc/<pid>/task/<tid>/syscall and on CPython handing the GIL to a waiter that has asked for it when the owner opens a window (switch interval 0.3 ms); the users() side is only stressed (its file position lives in libc, a pipe cannot stand in for utmp)",
     "PYTHONUTF8=1: bytes <-> str through surrogateescape is a bijection (modelled as identity on bytes); mnt_type / mnt_opts go through strict UTF-8 ('s' format): invalid UTF-8 there is a UnicodeDecodeError (an exception, allowed by the property), checked but outside the Lean model",
 ]
 ASSUMPTIONS = [
@@ -40,7 +43,7 @@ ASSUMPTIONS = [
     "mounts files without NUL bytes for the exact comparison (a NUL makes glibc's getmntent drop the rest of the line and the next line); NUL/garbage files are still fed under the no-crash oracle",
 ]
 MANIFEST = {
-    "level_text": "PARTIAL. Machine-checked Lean 4 theorems over a byte-level MODEL of the extension's decoders and bounds logic: C17_users_fields_cut (users() over every utmp file = the USER_PROCESS records with user/terminal/host cut at the first NUL or at the field width, ':0'/':0.0' as localhost, start time, PID) and C17_users_read_in_record (every string read stays inside the 384-byte record) for the size-bounded decode, both DISPROVED for the unbounded PyUnicode_DecodeFSDefault decode by the full-width record (lead L14: 341-char name; the code as found, fixed in /repo by a15d2eb); C17_filesystems_parse + C17_partitions_filter (+ _kept_iff, _all); C17_strncpy_terminated; C17_mac_fits; C17_affinity_no_overflow (loop never multiplies past INT_MAX and terminates, any kernel answers); C17_cpuset_in_bounds / C17_affinity_set_in_bounds (CPU_SET on any C long); C17_pid_range; C17_ioprio_no_overflow, C17_ioprio_entry_defined, C17_ioprio_reach (no ioclass reaches an undefined shift once a range check exists; counterexample ionice(2**18, 0) without it, lead L15, fixed in /repo by f6216f8); C17_iff_table / C17_iff_flag_names / C17_iff_documented. Which variant the source uses is re-extracted on every run (regex over users.c, proc.c, _psutil_common.h, _psutil_posix.c; ast over _pslinux.py) and feeds the proof obligations ucfg_good … icfg_safe. Memory safety of the COMPILED C is NOT proved: it is supported by a differential run of the real extension in sub-processes — crafted utmp files via utmpname(), crafted mounts/filesystems files, a sched_getaffinity EINVAL shim, exhaustive ioprio/pid edge grids and an argument fuzzer over every entry point — compared with the model's decoding, where a crash, hang or sanitizer report is a violation; the thorough tier repeats it on a clang -fsanitize=address,undefined build. That part is testing. EXTENSION ROUND (Model/C17Ext.lean, 22 more theorems): C17_ifaddrs_rows (net_if_addrs over every getifaddrs() list honouring libc's object contract = getifaddrs(3)'s reading: broadcast iff IFF_BROADCAST, ptp iff IFF_POINTOPOINT and not broadcast, NULL / unshowable addresses dropped) and C17_ifaddrs_reads_in_object; C17_ifr_name_bounded (the NIC name reaches ifr_name[IFNAMSIZ] cut to 15 bytes and terminated, for the four ifreq entry points) and C17_ifr_running; C17_mntent_line_whole (every mounts line of up to 4095 bytes reaches the field decoder whole when the getmntent buffer in effect is >= 4096; the 1024-byte getmntent_r buffer of seeded change C17-1 is the proved counterexample) and C17_mntent_tuple (the render->decode round trip of the fields, C17_mntent_roundtrip_Full, is PROVED in round 2); C17_sysinfo_tuple (every Py_BuildValue unit of linux_sysinfo matches the width of its struct sysinfo member: no truncation for any value); C17_getpriority_errno_independent (with errno cleared before getpriority(2) the result is the kernel's answer for EVERY errno value on entry; counterexample without the reset = seeded C18-1) plus the obligation that no other Linux entry point uses errno as a discriminator. These are tied to the real code by an LD_PRELOAD shim that scripts getifaddrs(), the SIOCGIF*/SIOCETHTOOL ioctls (logging the ifr_name bytes each call carried) and sysinfo(), by nice values set on a sacrificial child, and by a stale errno poisoned into the thread's errno before every fuzzed call. ROUND 2 (Model/C17Py.lean, 30 more theorems; incl. C17_ioprio_applied_is_passed: the ioprio word handed to the kernel is built from the ints the caller passed, with the format units of EVERY PyArg_ParseTuple call pinned by parse_formats_good - counterexample for the unchecked unit I = seeded C17-3): C17_mntent_roundtrip (render -> getmntent decode is the identity for EVERY mount entry, the escaped characters space/tab/newline/backslash included) and C17_mac_text (the sprintf/ptr loop as transcribed yields xx:xx:...:xx, two lower-case hex digits per byte, 3n-1 characters, for every address of up to 255 bytes) are now proved instead of tested; the decode SHAPE of users.c is a total translator fact (the text of the expression behind each string slot, every call touching ut_user/ut_line/ut_host, char locals) with the obligation ushape_good, so that any decoding other than PyUnicode_DecodeFSDefaultAndSize(ut->F, strnlen(ut->F, sizeof(ut->F))) stops the build (seeded C17-2), and C17_users_fields_cut_shape is the users() theorem for exactly that shape; the Python-side wrappers are modelled and proved: C17_rootfs_strategies_agree / C17_rootfs_find (RootFsDeviceFinder: on every tree in which /proc/partitions, /sys/dev/block/M:m/uevent and /sys/class/block/*/dev show the same devices the three strategies give the same answer, and find() returns the root device's /dev path iff it exists), C17_netifstats_rows (net_if_stats() for every list of NICs and every success/errno combination of the three ioctls: ENODEV NICs left out, other errors raised, isup = IFF_RUNNING, documented duplex, 32-bit speed, mtu, comma-joined flag names; an undefined duplex byte gives KeyError - stated as the code's behaviour), C17_netifaddrs_mac_padding and C17_netifaddrs_grouping (psutil.net_if_addrs(): per NIC its rows, stable sort by family, AF_LINK text completed to 6 groups). Each is driven on the REAL code path: RootFsDeviceFinder over scripted /proc + /sys trees (glob order scripted), psutil.net_if_stats() over a scripted /proc/net/dev with per-NIC, per-ioctl scripted answers, psutil.net_if_addrs() over scripted getifaddrs() lists.",
+    "level_text": "PARTIAL. Machine-checked Lean 4 theorems over a byte-level MODEL of the extension's decoders and bounds logic: C17_users_fields_cut (users() over every utmp file = the USER_PROCESS records with user/terminal/host cut at the first NUL or at the field width, ':0'/':0.0' as localhost, start time, PID) and C17_users_read_in_record (every string read stays inside the 384-byte record) for the size-bounded decode, both DISPROVED for the unbounded PyUnicode_DecodeFSDefault decode by the full-width record (lead L14: 341-char name; the code as found, fixed in /repo by a15d2eb); C17_filesystems_parse + C17_partitions_filter (+ _kept_iff, _all); C17_strncpy_terminated; C17_mac_fits; C17_affinity_no_overflow (loop never multiplies past INT_MAX and terminates, any kernel answers); C17_cpuset_in_bounds / C17_affinity_set_in_bounds (CPU_SET on any C long); C17_pid_range; C17_ioprio_no_overflow, C17_ioprio_entry_defined, C17_ioprio_reach (no ioclass reaches an undefined shift once a range check exists; counterexample ionice(2**18, 0) without it, lead L15, fixed in /repo by f6216f8); C17_iff_table / C17_iff_flag_names / C17_iff_documented. Which variant the source uses is re-extracted on every run (regex over users.c, proc.c, _psutil_common.h, _psutil_posix.c; ast over _pslinux.py) and feeds the proof obligations ucfg_good … icfg_safe. Memory safety of the COMPILED C is NOT proved: it is supported by a differential run of the real extension in sub-processes — crafted utmp files via utmpname(), crafted mounts/filesystems files, a sched_getaffinity EINVAL shim, exhaustive ioprio/pid edge grids and an argument fuzzer over every entry point — compared with the model's decoding, where a crash, hang or sanitizer report is a violation; the thorough tier repeats it on a clang -fsanitize=address,undefined build. That part is testing. EXTENSION ROUND (Model/C17Ext.lean, 22 more theorems): C17_ifaddrs_rows (net_if_addrs over every getifaddrs() list honouring libc's object contract = getifaddrs(3)'s reading: broadcast iff IFF_BROADCAST, ptp iff IFF_POINTOPOINT and not broadcast, NULL / unshowable addresses dropped) and C17_ifaddrs_reads_in_object; C17_ifr_name_bounded (the NIC name reaches ifr_name[IFNAMSIZ] cut to 15 bytes and terminated, for the four ifreq entry points) and C17_ifr_running; C17_mntent_line_whole (every mounts line of up to 4095 bytes reaches the field decoder whole when the getmntent buffer in effect is >= 4096; the 1024-byte getmntent_r buffer of seeded change C17-1 is the proved counterexample) and C17_mntent_tuple (the render->decode round trip of the fields, C17_mntent_roundtrip_Full, is PROVED in round 2); C17_sysinfo_tuple (every Py_BuildValue unit of linux_sysinfo matches the width of its struct sysinfo member: no truncation for any value); C17_getpriority_errno_independent (with errno cleared before getpriority(2) the result is the kernel's answer for EVERY errno value on entry; counterexample without the reset = seeded C18-1) plus the obligation that no other Linux entry point uses errno as a discriminator. These are tied to the real code by an LD_PRELOAD shim that scripts getifaddrs(), the SIOCGIF*/SIOCETHTOOL ioctls (logging the ifr_name bytes each call carried) and sysinfo(), by nice values set on a sacrificial child, and by a stale errno poisoned into the thread's errno before every fuzzed call. ROUND 2 (Model/C17Py.lean, 30 more theorems; incl. C17_ioprio_applied_is_passed: the ioprio word handed to the kernel is built from the ints the caller passed, with the format units of EVERY PyArg_ParseTuple call pinned by parse_formats_good - counterexample for the unchecked unit I = seeded C17-3): C17_mntent_roundtrip (render -> getmntent decode is the identity for EVERY mount entry, the escaped characters space/tab/newline/backslash included) and C17_mac_text (the sprintf/ptr loop as transcribed yields xx:xx:...:xx, two lower-case hex digits per byte, 3n-1 characters, for every address of up to 255 bytes) are now proved instead of tested; the decode SHAPE of users.c is a total translator fact (the text of the expression behind each string slot, every call touching ut_user/ut_line/ut_host, char locals) with the obligation ushape_good, so that any decoding other than PyUnicode_DecodeFSDefaultAndSize(ut->F, strnlen(ut->F, sizeof(ut->F))) stops the build (seeded C17-2), and C17_users_fields_cut_shape is the users() theorem for exactly that shape; the Python-side wrappers are modelled and proved: C17_rootfs_strategies_agree / C17_rootfs_find (RootFsDeviceFinder: on every tree in which /proc/partitions, /sys/dev/block/M:m/uevent and /sys/class/block/*/dev show the same devices the three strategies give the same answer, and find() returns the root device's /dev path iff it exists), C17_netifstats_rows (net_if_stats() for every list of NICs and every success/errno combination of the three ioctls: ENODEV NICs left out, other errors raised, isup = IFF_RUNNING, documented duplex, 32-bit speed, mtu, comma-joined flag names; an undefined duplex byte gives KeyError - stated as the code's behaviour), C17_netifaddrs_mac_padding and C17_netifaddrs_grouping (psutil.net_if_addrs(): per NIC its rows, stable sort by family, AF_LINK text completed to 6 groups). Each is driven on the REAL code path: RootFsDeviceFinder over scripted /proc + /sys trees (glob order scripted), psutil.net_if_stats() over a scripted /proc/net/dev with per-NIC, per-ioctl scripted answers, psutil.net_if_addrs() over scripted getifaddrs() lists. THREADS (seeded round 5, Model/C17Thr.lean): C17_thread_rows_own — a small-step model of any number of threads inside a loop that decodes records handed out through ONE process-wide static object of libc (getmntent, getutent), the GIL being the only lock: for every number of threads, every file per thread and every schedule, with no GIL window around the static-result call and none between the call and the decode, what a call has built is always a beginning of ITS OWN file's records and, once returned, exactly those records (schedule independence: C17_thread_schedule_independent); both window placements are DISPROVED on two-thread schedules (C17_thread_released_call_counterexample = seeded C17-5, C17_thread_window_counterexample). Which placement the source has is a total translator fact: every call made inside a GIL window of any C function of the Linux build, whatever the spelling of the window and through psutil helpers (gil_released_calls_good: none of them is in the MT-Unsafe static-object set), and the release/acquire/produce/use events of every function that makes such a call (gil_loops_good). Tied to the real extension by n threads inside cext.disk_partitions() at once, each on its own pipe, fed line by line under scripted schedules with a quiescence rendezvous (every thread of the worker asleep in a system call, read from /proc) and a thread that owns the GIL on command, plus a k-thread stress of disk_partitions() / users().",
     "level_note": "Trusted: Lean kernel + {propext, Classical.choice, Quot.sound}; regex/ast translator; glibc/CPython semantics re-implemented in the harness (getmntent decoding, PyArg format units); the struct utmp layout; sanitizer coverage is only as good as the inputs explored. net_if_addrs()/net_if_stats() vs /sys/class/net and socket.if_nameindex() on the live interfaces is a supporting check (the sandbox has 4 NICs). Extension round: getnameinfo's numeric text is an oracle of the model (independent rendering in the harness); socket struct sizes and C type widths are ABI tables in the translator; libc's getmntent line buffer (4096) is MEASURED by a probe at translation time; the getifaddrs shim replaces the kernel, so libc's allocation contract for the sockaddr objects (Spec.SockWF) is an assumption.",
     "technique": "Lean 4 proofs over byte-level decoder/bounds models + translator-fed proof obligations + sub-process differential testing of the compiled extension (ASan+UBSan in the thorough tier)",
     "design_ref": "DESIGN.md §5 C17",
@@ -52,6 +55,7 @@ def facts(snap, F):
     c17_facts_ext.facts(snap, F, c17_facts.c_source, c17_facts.c_function, c17_facts.LINUX_C)
     c17_facts_py.facts(snap, F, c17_facts.c_source, c17_facts.c_function)
     c17_facts_r3.facts(snap, F, c17_facts.c_source, c17_facts.LINUX_C)
+    c17_facts_thr.facts(snap, F, c17_facts.c_source, c17_facts.LINUX_C)
 
 
 # ====================================================================== entry-point formats (harness-level, from the C source)
@@ -464,7 +468,8 @@ def grids():
 
 def correspond(ctx, res):
     res.rule = ("crafted utmp files (7 clause families + corpus incl. the L14 witness), crafted mounts/filesystems files "
-                "(9 families), exhaustive ioprio class×value and pid edge grids, sched_getaffinity EINVAL shim, argument fuzzer "
+                "(9 families), n threads inside cext.disk_partitions() at once on pipes fed by scripted schedules with quiescence rendezvous "
+                "(structured + random + all 4-step scripts) and a k-thread stress of disk_partitions()/users(), exhaustive ioprio class×value and pid edge grids, sched_getaffinity EINVAL shim, argument fuzzer "
                 "over every entry point of both extension modules, live NICs vs sysfs; all in sub-processes. "
                 "non-trivial = users file with a USER_PROCESS/full-width/localhost/partial feature, mounts file with ≥1 entry, "
                 "every fuzz call; distinct = distinct file bytes / call tuples")
@@ -526,6 +531,12 @@ def one_build(ctx, res, run, fmts, first):
                 el = Z.e2e_lines(c, X.mnt_line_for)
                 ei = (add(el[0]), add(el[1]))
             todo.append(("part", (c, dec), (add(pl[0]), add(pl[1]), mi, ei)))
+    # ---------------------------------------------------------------- seeded round 5: several threads inside the extension at once
+    for c in T.sched_cases(ctx):
+        ln, _ = T.model_sched(c)
+        todo.append(("mt_sched", c, add(ln)))
+    for c in T.stress_cases(ctx):
+        todo.append(("mt_stress", c, None))
     eps = run.ask({"cmd": "entrypoints"}, {"kind": "entrypoints"}) or {}
     names = [(m, f) for m in ("linux", "posix") for f in eps.get(m, [])]
     res.extra["entry_points"] = ["%s.%s" % x for x in names]
@@ -670,6 +681,10 @@ def one_build(ctx, res, run, fmts, first):
             Z.compare_errmsg(run, payload, [outs[i] for i in idx])
         elif kind == "parts_mtab":
             Z.compare_mtab(run, payload)
+        elif kind == "mt_sched":
+            T.compare_sched(run, payload, outs[idx])
+        elif kind == "mt_stress":
+            T.compare_stress(run, payload)
         elif kind == "call":
             compare_call(run, payload, predict_parse(fmts.get((payload["mod"], payload["fn"]), "*"), payload["args"]), outs[idx])
         elif kind == "call_fuzz":
@@ -943,6 +958,10 @@ def _replay_case(ctx, res, inp):
                     Z.compare_errmsg(run, inp["case"], drv.batch(Z.errmsg_lines(inp["case"])))
                 elif k == "parts_mtab":
                     Z.compare_mtab(run, inp["case"])
+                elif k == "mt_sched":
+                    T.replay_sched(run, drv, inp)
+                elif k == "mt_stress":
+                    T.replay_stress(run, inp)
                 else:
                     return None
             finally:
@@ -983,6 +1002,14 @@ def shrink(ctx, d):
             if f:
                 dd = [x for x in r.disagreements if x["kind"] == "spec"][0]
                 return dict(d, input=dd["input"], impl=dd["impl"], model=dd["model"], spec=dd["spec"], note=dd["note"])
+    if inp.get("kind") == "mt_sched" and len(inp["case"]["steps"]) > 1:
+        def fails(steps):
+            return _still_fails(ctx, dict(inp, case=dict(inp["case"], steps=steps)))[0]
+        small = ddmin(inp["case"]["steps"], fails, max_tests=16)
+        f, r = _still_fails(ctx, dict(inp, case=dict(inp["case"], steps=small)))
+        if f:
+            dd = [x for x in r.disagreements if x["kind"] == "spec"][0]
+            return dict(d, input=dd["input"], impl=dd["impl"], model=dd["model"], spec=dd["spec"], note=dd["note"])
     return d
 
 
